@@ -618,8 +618,32 @@ def long_sequences(ctx, n):
     return textify(longs)
 
 
+def pending_at_end_sequences():
+    """a FieldName / Annotation call still pending when a container is closed (or when Finish is called) must not
+    leak into what follows: every container kind, at the top level, inside a list and inside a struct"""
+    FN, AN, INT = ["FN", "tk,x61,-1"], ["AN", "tk,x62,-1"], ["INT", "1"]
+    FNB = ["FN", "tk,x63,-1"]
+    out = []
+    for b, e in (("BL", "EL"), ("BS", "ES"), ("BT", "ET")):
+        for pend in ([AN], [FN], [FN, AN], [AN, AN]):
+            if b != "BT" and FN in pend:
+                continue            # FieldName outside a struct is refused: covered by the short sequences
+            inner = [[b]] + pend + [[e]]
+            out.append(inner + [INT, ["FIN"]])
+            out.append(inner + [["FIN"], INT, ["FIN"]])
+            out.append([["BL"]] + inner + [INT, ["EL"], ["FIN"]])
+            out.append([["BS"]] + inner + [INT, ["ES"], ["FIN"]])
+            out.append([["BT"], FN] + inner + [INT, ["ET"], ["FIN"]])          # a value without a field name: must fail
+            out.append([["BT"], FN] + inner + [FNB, INT, ["ET"], ["FIN"]])
+            out.append([["BT"], FN] + inner + [["ET"], INT, ["FIN"]])
+    for pend in ([AN], [AN, AN]):
+        out.append(pend + [["FIN"], INT, ["FIN"]])                                  # pending at Finish, then a new batch
+        out.append([INT] + pend + [["FIN"]])
+    return out
+
+
 def run_proto(ctx):
-    seqs = proto_sequences(ctx) + long_sequences(ctx, ctx.scale(1200, 20000))
+    seqs = proto_sequences(ctx) + pending_at_end_sequences() + long_sequences(ctx, ctx.scale(1200, 20000))
     for opts, name in CONFIGS:
         qs = seqs if opts in (0, 2) else seqs[::4]
         lines = [line_of(opts, None, q) for q in qs]
